@@ -90,6 +90,13 @@ func init() {
 			if dss := p.deepSites(sl, nameMatcher("SetL1Head"), 2); len(dss) > 0 {
 				hs = &dss[0].Site
 			}
+			if dss := p.deepSites(sl, nameMatcher("SetL1Head"), 2); len(dss) > 0 {
+				// never backwards (F30): the write is reached only after the candidate's Starknet block number was compared with the
+				// recorded head's (or no head is recorded / readable yet)
+				d := p.mustHoldDeep(dss[0])
+				okm, miss := everyDisjunctHas(d, []string{"L1Head()", "BlockNumber"}, []string{"L1Head()#1", "!= nil"})
+				c.check(okm, "guards", "setL1Head: never to an older Starknet block", p.Pos(dss[0].Site.Pos()), "the candidate's block number was compared with the recorded head before the write", "the L1 head is written without comparing the candidate with the head already recorded ("+clip(miss, 200)+"): a commit of an older Starknet block that is delivered late moves the head backwards")
+			}
 			if hs == nil {
 				c.und("guards", "setL1Head: head fields", p.Pos(fnPos(sl)), "call of Blockchain.SetL1Head not found in setL1Head or its helpers")
 			} else {
